@@ -240,7 +240,7 @@ fn drive<B: Backend>(sum: &mut Summary, bk: &'static str, tier: &str) {
         }
     }
     // from_utf16 / from_utf16_lossy
-    for v in [vec![], vec![0x61u16, 0xe9, 0x20ac], vec![0xD83E, 0xDD80], vec![0xD800], vec![0x61, 0xDC00, 0x62]] {
+    for v in [vec![], vec![0x61u16, 0xe9, 0x20ac], vec![0xD83E, 0xDD80], vec![0xD800], vec![0x61, 0xDC00, 0x62], vec![0xFEFF, 0x61], vec![0xFEFF], vec![0x61, 0xFEFF], vec![0xFFFE, 0x61], vec![0xFEFF, 0xFEFF, 0xD800], vec![0, 0x61], (0..40u16).map(|i| 0x61 + i).collect::<Vec<u16>>()] {
         sum.evaluations += 2;
         let e = String::from_utf16(&v).ok(); let g = HipStr::<B>::from_utf16(&v).ok().map(|h| h.to_string());
         if e != g { sum.violation(format!("{{\"what\":{},\"observed\":{},\"expected\":{}}}", jstr(&format!("strapi from_utf16 bk={} {:?}", bk, v)), jstr(&format!("{:?}", g)), jstr(&format!("{:?}", e)))); }
